@@ -117,7 +117,8 @@ theorem toBytes_collisions :
   decide
 
 /-- within one Go type `ToBytes` is injective (so the collisions above are all cross-type);
-    `int`: proved for non-negative values (array indices, sizes); `*big.Int` is not covered. -/
+    `int`: non-negative values only (array indices, sizes); `*big.Int` is not covered here —
+    see `toBytes_injective_within_type` for the full statement. -/
 theorem toBytes_injective_within_type_partial :
     (∀ a b : Bool, toBytes (.bool a) = toBytes (.bool b) → a = b) ∧
     (∀ a b : UInt8, toBytes (.byte a) = toBytes (.byte b) → a = b) ∧
@@ -135,9 +136,42 @@ theorem toBytes_injective_within_type_partial :
     refine ⟨?_, h.2⟩
     cases c <;> cases c' <;> simp at h ⊢
   · intro i j hi hj h; exact int64ToBytes_inj_nonneg i j hi hj h
--- full statement (not proved): additionally
---   ∀ i j : Int, -2^63 ≤ i,j < 2^63 → toBytes (.int i) = toBytes (.int j) → i = j   (negative values)
---   ∀ i j : Int, toBytes (.big i) = toBytes (.big j) → i = j
+-- the full statement (additionally negative `int` values and `*big.Int`) is
+-- `toBytes_injective_within_type` below; this weaker form is kept under its old name.
+
+/-- **toBytes_injective_within_type**: within every Go type that `ToBytes` accepts it is
+    injective — bool, byte, string/[]byte, Value, Address, `int`/`int16`/`int32`/`int64` on the
+    whole int64 range (negative values included) and `*big.Int`/`*HexInt` for every integer.
+    The integer cases are the round-trip theorems of C24 (`SafeBytesToInt64 ∘ Int64ToBytes`,
+    `BigIntSetBytes ∘ BigIntToBytes`) on the same encoders. -/
+theorem toBytes_injective_within_type :
+    (∀ a b : Bool, toBytes (.bool a) = toBytes (.bool b) → a = b) ∧
+    (∀ a b : UInt8, toBytes (.byte a) = toBytes (.byte b) → a = b) ∧
+    (∀ a b : Bytes, toBytes (.str a) = toBytes (.str b) → a = b) ∧
+    (∀ a b : Bytes, toBytes (.value a) = toBytes (.value b) → a = b) ∧
+    (∀ (c c' : Bool) (a b : Bytes), toBytes (.addr c a) = toBytes (.addr c' b) → c = c' ∧ a = b) ∧
+    (∀ i j : Int, -(2:Int)^63 ≤ i ∧ i < (2:Int)^63 → -(2:Int)^63 ≤ j ∧ j < (2:Int)^63 →
+      toBytes (.int i) = toBytes (.int j) → i = j) ∧
+    (∀ i j : Int, toBytes (.big i) = toBytes (.big j) → i = j) := by
+  obtain ⟨h1, h2, h3, h4, h5, _⟩ := toBytes_injective_within_type_partial
+  exact ⟨h1, h2, h3, h4, h5, fun i j hi hj h => int64ToBytes_inj i j hi hj h,
+    fun i j h => bigIntToBytes_inj i j h⟩
+
+/-- non-vacuity: negative int64 values (incl. the most negative one) satisfy the range
+    hypothesis and have distinct, non-trivial codings; so do big integers beyond int64 -/
+example : (-(2:Int)^63 ≤ -(2:Int)^63 ∧ -(2:Int)^63 < (2:Int)^63) ∧ (-(2:Int)^63 ≤ -129 ∧ (-129:Int) < (2:Int)^63) ∧
+    toBytes (.int (-(2:Int)^63)) = [0x80, 0, 0, 0, 0, 0, 0, 0] ∧ toBytes (.int (-129)) = [0xff, 0x7f] ∧
+    toBytes (.int (-128)) = [0x80] ∧ toBytes (.int 128) = [0, 0x80] ∧
+    toBytes (.big (-(2:Int)^64)) = [0xff, 0, 0, 0, 0, 0, 0, 0, 0] ∧
+    toBytes (.big ((2:Int)^63)) = [0, 0x80, 0, 0, 0, 0, 0, 0, 0] := by decide
+
+/-- an `int` and a `*big.Int` of the same int64 value have the same `ToBytes` (the cross-type
+    collision `big n / int n` of `toBytes_collisions`, for every n) -/
+theorem toBytes_int_eq_big (v : Int) (h : -(2:Int)^63 ≤ v ∧ v < (2:Int)^63) :
+    toBytes (.int v) = toBytes (.big v) := int64ToBytes_eq_bigIntToBytes v h
+
+example : (-(2:Int)^63 ≤ -300 ∧ (-300:Int) < (2:Int)^63) ∧ toBytes (.int (-300)) = [0xfe, 0xd4] ∧
+    toBytes (.big (-300)) = [0xfe, 0xd4] := by decide
 
 /-- the raw builder does not delimit parts: distinct part lists, same key (witness) -/
 theorem raw_builder_collides :
